@@ -150,6 +150,11 @@ class ConcStream(Stream):
             # update || delete || decision
             {'checker': 'CExact', 'rxtable': [], 'init': [a], 'inquiries': [INQ],
              'threads': [[['update', pol('a', 'allow', subject='Max')]], [['delete', 'a']], [['decide', 0]]], 'bound': 1},
+            # a store larger than the default paging batch (50): a decision must see one snapshot of all of it; the
+            # decisive (vetoing) policy is the 51st, a policy of the first page is deleted meanwhile
+            {'checker': 'CExact', 'rxtable': [],
+             'init': [pol('f0', 'allow', action='zzz'), a] + [pol('f%d' % i, 'allow', action='zzz') for i in range(1, 49)] + [d],
+             'inquiries': [INQ], 'threads': [[['decide', 0]], [['delete', 'f0']]], 'bound': 1},
             # 2 decisions || 1 mutation
             {'checker': 'CExact', 'rxtable': [], 'init': [a], 'inquiries': [INQ, INQ2],
              'threads': [[['decide', 0]], [['decide', 1]], [['add', pol('p', 'allow', action='put')]]], 'bound': 1},
@@ -299,7 +304,9 @@ class ConcStream(Stream):
             pre = set(p['uid'] for p in c['init'])
             bad = False
             for uid, rs in adds.items():
-                want_ok = 0 if uid in pre and not any(op == ['delete', uid] for ops in c['threads'] for op in ops) else 1
+                if any(op == ['delete', uid] for ops in c['threads'] for op in ops):
+                    continue        # a delete of that uid in between makes a second successful add legitimate
+                want_ok = 0 if uid in pre else 1
                 if len(rs) > 1 and rs.count('ok') != want_ok:
                     out.append((prefix, 'concurrent adds of uid %r succeeded %d times' % (uid, rs.count('ok')), oc))
                     bad = True
